@@ -882,7 +882,37 @@ def r01_10(ctx, prog, crate):
               "registered for its item type), which are then shown values of another type" % ty, b.where(0))
 
 
+def r01_11(ctx, prog, crate):
+    """Every registered input counter keeps being shown the inputs: count_inputs_as::<C>() installs a counter of C's own kind
+    (the arm of KnownCounterKind::of::<C>() for kind K calls input_counter with the counter type named K + "Count"), so it
+    can only replace a counter of that same kind - a crossed table files it under another kind's slot and silently evicts
+    the input counter the user registered there."""
+    from lib import tables as _t
+    b = prog.body("benchmark::Bencher::count_inputs_as", crate)
+    kinds = _t.variant_names(prog, "counter::any_counter::KnownCounterKind", crate)
+    if not ctx.anchor("R01.11", "Bencher::count_inputs_as + KnownCounterKind", (1 if b else 0) + (1 if kinds else 0), 2):
+        return
+    ctx.saw(b)
+    sws = [(sb, t) for sb, t in b.switches() if any(x.kind == "call" and x.a.endswith("KnownCounterKind::of") for x in b.prov.op_src(t["discr"]))]
+    if not ctx.check(len(sws) == 1, "R01.11", ["count_inputs_as", "match-on-kind"], "switches on KnownCounterKind::of::<C>(): %d" % len(sws), b.where(0)):
+        return
+    sb, t = sws[0]
+    seen = 0
+    for val, tgt in t["arms"]:
+        k = kinds[int(val)] if str(val).isdigit() and int(val) < len(kinds) else None
+        calls = [c for c in b.live_calls() if c.callee.endswith("Bencher::input_counter") and b.dominates(tgt, c.bb)]
+        if k is None or len(calls) != 1:
+            ctx.fail("R01.11", ["count_inputs_as", str(k), "one-input_counter-call"], "arm %s installs %d counters" % (k, len(calls)), b.where(tgt))
+            continue
+        seen += 1
+        tys = [g for g in (calls[0].gargs or []) if g.startswith("counter::") and g.endswith("Count")]
+        ctx.check(tys == ["counter::%sCount" % k], "R01.11", ["count_inputs_as", k, "installs-its-own-kind"],
+                  "for the kind %s, count_inputs_as installs a counter of type %s" % (k, tys), calls[0].line())
+    ctx.check(seen == len(kinds), "R01.11", ["count_inputs_as", "every-kind"], "arms with a counter: %d of %d kinds" % (seen, len(kinds)), b.where(sb))
+
+
 def run(ctx, prog, crate):
+    r01_11(ctx, prog, crate)
     r01_10(ctx, prog, crate)
     r01_8(ctx, prog, crate)
     r01_9(ctx, prog, crate)
